@@ -9,6 +9,7 @@ import (
 	"context"
 	"errors"
 	"fmt"
+	"strings"
 	"sync"
 	"time"
 
@@ -23,6 +24,19 @@ type Item struct {
 	Id   int64 `graphql:",key"`
 	Name string
 	N    int64
+}
+
+// Node is the stable handle of an item (one pointer per id for the whole case): the source object of an Expensive
+// field has to be the same object from run to run for the executor's reactive cache to find its entry again.
+type Node struct {
+	Id int64 `graphql:",key"`
+}
+
+// Detail is what the Expensive field `detail` of a Node resolves to; every node's detail has a reactive resource of
+// its own ("detail:<id>").
+type Detail struct {
+	D int64
+	E string
 }
 
 type Inner struct {
@@ -48,6 +62,8 @@ type World struct {
 	Flag  bool
 	Obj   *Inner
 	Items []Item
+	Details map[int64]Detail
+	nodes   map[int64]*Node
 	Tick  int64
 	F     float64 // integral, or NaN / +-Inf (which encoding/json refuses)
 	ver   map[string]int
@@ -66,7 +82,41 @@ type World struct {
 func NewWorld(rec *Recorder) *World {
 	w := &World{ver: map[string]int{}, res: map[string]*reactive.Resource{}, fail: map[string]*failSpec{}, rec: rec}
 	w.S = "x"
+	w.Details = map[int64]Detail{}
+	w.nodes = map[int64]*Node{}
 	return w
+}
+
+// node returns the stable handle of an item (w.mu held).
+func (w *World) node(id int64) *Node {
+	n := w.nodes[id]
+	if n == nil {
+		n = &Node{Id: id}
+		w.nodes[id] = n
+	}
+	return n
+}
+
+func (w *World) detail(id int64) Detail {
+	if d, ok := w.Details[id]; ok {
+		return d
+	}
+	return Detail{D: 10 * id, E: fmt.Sprintf("e%d", id)}
+}
+
+// DetailField names the reactive resource / version counter of a node's detail.
+func DetailField(id int64) string { return fmt.Sprintf("detail:%d", id) }
+
+// readCached is read for a resolver whose result the executor memoises (reactive.Cache): dependency first, then the
+// version stamp; no resource of the computation's own (a cached sub-computation outlives the run that made it).
+func (w *World) readCached(ctx context.Context, field string) {
+	reactive.AddDependency(ctx, w.currentRes(field), nil)
+	if tok, _ := ctx.Value(runKey{}).(*RunTok); tok != nil {
+		w.mu.Lock()
+		v := w.ver[field]
+		w.mu.Unlock()
+		w.rec.exec(tok, field, v)
+	}
 }
 
 // fieldRes returns the live resource of a field (w.mu held). A reactive.Resource is released - and
@@ -78,6 +128,7 @@ func (w *World) fieldRes(field string) *reactive.Resource {
 		return r
 	}
 	r := reactive.NewResource()
+	ownNode(r, w.rec)
 	r.Cleanup(func() {
 		w.mu.Lock()
 		if w.res[field] == r {
@@ -158,6 +209,7 @@ func (w *World) read(ctx context.Context, field string) error {
 // reactive.InvalidateAfter do); with d > 0 the resource is a timer that changes the tick and invalidates.
 func (w *World) register(ctx context.Context, tok *RunTok, d time.Duration) {
 	res := reactive.NewResource()
+	ownNode(res, w.rec)
 	w.mu.Lock()
 	n := w.nextRes
 	w.nextRes++
@@ -245,6 +297,13 @@ func (w *World) Touch(field string, permanent bool) {
 	} else {
 		r.Strobe()
 	}
+}
+
+// ItemsNow is a copy of the current items.
+func (w *World) ItemsNow() []Item {
+	w.mu.Lock()
+	defer w.mu.Unlock()
+	return append([]Item{}, w.Items...)
 }
 
 func (w *World) Version(field string) int {
@@ -398,6 +457,45 @@ func Schema() *graphql.Schema {
 			defer w.mu.Unlock()
 			return w.Tick, nil
 		})
+		// stable handles with an Expensive field: the executor memoises `detail` per (node, selection) in the
+		// rerunner's cache
+		q.FieldFunc("nodes", func(ctx context.Context) ([]*Node, error) {
+			w := worldOf(ctx)
+			if err := w.read(ctx, "items"); err != nil {
+				return nil, err
+			}
+			w.mu.Lock()
+			defer w.mu.Unlock()
+			out := make([]*Node, len(w.Items))
+			for i := range w.Items {
+				out[i] = w.node(w.Items[i].Id)
+			}
+			return out, nil
+		})
+		q.FieldFunc("node", func(ctx context.Context, args struct{ Id int64 }) (*Node, error) {
+			w := worldOf(ctx)
+			if err := w.read(ctx, "items"); err != nil {
+				return nil, err
+			}
+			w.mu.Lock()
+			defer w.mu.Unlock()
+			for i := range w.Items {
+				if w.Items[i].Id == args.Id {
+					return w.node(args.Id), nil
+				}
+			}
+			return nil, nil
+		})
+		nodeObj := sb.Object("Node", Node{})
+		nodeObj.FieldFunc("detail", func(ctx context.Context, n *Node) *Detail {
+			w := worldOf(ctx)
+			w.readCached(ctx, DetailField(n.Id))
+			w.mu.Lock()
+			defer w.mu.Unlock()
+			d := w.detail(n.Id)
+			return &d
+		}, schemabuilder.Expensive)
+		sb.Object("Detail", Detail{})
 		sb.Object("Item", Item{})
 		sb.Object("Inner", Inner{})
 		m := sb.Mutation()
@@ -517,6 +615,44 @@ var SubQueries = []string{
 	`{ a `,
 	`{ a { x } }`,
 	`{ items }`,
+	// memoised sub-results (Expensive field on stable source objects); appended so that the indices above stay
+	`{ nodes { id detail { d } } }`,
+	`{ nodes { id detail { d e } } a }`,
+	`query F { first: node(id: 1) { ...D } second: node(id: 1) { ...D detail { e } } } fragment D on Node { detail { d } }`,
+	`query G { full: nodes { id ...D ...E } brief: nodes { id ...D } } fragment D on Node { detail { d } } fragment E on Node { detail { e } }`,
+	`query H { one: node(id: 2) { ...E id } all: nodes { id ...E detail { d } } s } fragment E on Node { detail { e } }`,
+}
+
+// FirstCacheSubQuery: the queries from here on use the executor's reactive cache.
+const FirstCacheSubQuery = 19
+
+// CachedDetailIDs: the nodes whose `detail` a live subscription on query q depends on, given the current items.
+func CachedDetailIDs(q int, items []Item) []int64 {
+	q = q % len(SubQueries)
+	if q < FirstCacheSubQuery {
+		return nil
+	}
+	text := SubQueries[q]
+	var ids []int64
+	has := func(id int64) bool {
+		for _, it := range items {
+			if it.Id == id {
+				return true
+			}
+		}
+		return false
+	}
+	if strings.Contains(text, "nodes") {
+		for _, it := range items {
+			ids = append(ids, it.Id)
+		}
+	}
+	for _, id := range []int64{1, 2} {
+		if strings.Contains(text, fmt.Sprintf("node(id: %d)", id)) && has(id) {
+			ids = append(ids, id)
+		}
+	}
+	return ids
 }
 
 const FirstBadSubQuery = 15
